@@ -1,6 +1,7 @@
 package federation
 
 import (
+	"strings"
 	"fmt"
 	"os"
 	"reflect"
@@ -132,10 +133,8 @@ func verifSchemas(thorough bool) []*IntrospectionQueryResult {
 	intT := &introspectionTypeRef{Kind: "SCALAR", Name: "Int"}
 	nnInt := &introspectionTypeRef{Kind: "NON_NULL", OfType: intT}
 	fieldOpts := []*introspectionTypeRef{nil, intT, nnInt}
-	argOpts := []*introspectionTypeRef{nil, intT}
-	if thorough {
-		argOpts = append(argOpts, nnInt)
-	}
+	argOpts := []*introspectionTypeRef{nil, intT, nnInt} // the required-argument option is part of the quick tier as well
+	_ = thorough
 	var out []*IntrospectionQueryResult
 	for _, f := range fieldOpts {
 		for _, g := range fieldOpts {
@@ -309,4 +308,109 @@ func verifContains(l []string, s string) bool {
 		}
 	}
 	return false
+}
+
+
+// TestVerifBounded_C09_Versions: three versions of one service through the real processSchemaVersions: the service schema
+// keeps a field iff every version has it (a field any version lacks - also a middle one - is gone), whatever the versions are
+// called; a merge failure between any two versions (e.g. a required argument only one version knows) fails the whole fold.
+func TestVerifBounded_C09_Versions(t *testing.T) {
+	all := verifSchemas(true)
+	// a spread of the schema family: every 5th schema (11 schemas, 1331 ordered triples)
+	var schemas []*IntrospectionQueryResult
+	for i := 0; i < len(all); i += 5 {
+		schemas = append(schemas, all[i])
+	}
+	evals, distinct, failures := 0, 0, 0
+	first := ""
+	classes := map[string]bool{}
+	fail := func(a, b, c int, why string) {
+		failures++
+		// classify: the one known way for the outcome to depend on version order (known_findings.txt) is a field that some
+		// version lacks while two versions that have it are pairwise incompatible - the incompatibility is then reported only
+		// if those two meet before the field has been dropped. Everything else is class "other".
+		class := "other:" + strings.Fields(why)[0]
+		if strings.HasPrefix(why, "outcome depends") {
+			vs := []*IntrospectionQueryResult{schemas[a], schemas[b], schemas[c]}
+			for _, name := range []string{"f", "g"} {
+				var have []*IntrospectionQueryResult
+				for _, v := range vs {
+					if m, _ := verifFieldMap(v); func() bool { _, ok := m[name]; return ok }() {
+						have = append(have, v)
+					}
+				}
+				if len(have) == 2 {
+					if _, err := mergeSchemas(have[0], have[1], Intersection); err != nil {
+						class = "fold-order:dropped-field-hides-incompatible-versions"
+					}
+				}
+			}
+		}
+		classes[class] = true
+		if first == "" {
+			first = verifJSON(map[string]interface{}{"v1": schemas[a].Schema.Types, "v2": schemas[b].Schema.Types, "v3": schemas[c].Schema.Types, "detail": why, "class": class})
+		}
+	}
+	defer func() {
+		for c := range classes {
+			fmt.Printf("VERIF-FAIL-CLASS: %s\n", c)
+		}
+	}()
+	for a := range schemas {
+		for b := range schemas {
+			for c := range schemas {
+				evals++
+				if a != b && b != c && a != c {
+					distinct++
+				}
+				_, svc, byName, err := processSchemaVersions(serviceSchemas{"svc": {"v1": schemas[a], "v2": schemas[b], "v3": schemas[c]}})
+				// oracle: the fold succeeds iff the left-to-right pairwise merges succeed; fields = those all three versions have
+				ab, e1 := mergeSchemas(schemas[a], schemas[b], Intersection)
+				var e2 error
+				if e1 == nil {
+					_, e2 = mergeSchemas(ab, schemas[c], Intersection)
+				}
+				wantErr := e1 != nil || e2 != nil
+				if (err != nil) != wantErr {
+					fail(a, b, c, fmt.Sprintf("fold error=%v, pairwise merges fail=%v", err, wantErr))
+					continue
+				}
+				if err != nil {
+					continue
+				}
+				if len(svc) != 1 || byName["svc"] != svc[0] {
+					fail(a, b, c, "one service must yield one schema")
+					continue
+				}
+				fa, _ := verifFieldMap(schemas[a])
+				fb, _ := verifFieldMap(schemas[b])
+				fc, _ := verifFieldMap(schemas[c])
+				fg, _ := verifFieldMap(svc[0])
+				for _, name := range []string{"f", "g"} {
+					_, inA := fa[name]
+					_, inB := fb[name]
+					_, inC := fc[name]
+					_, inG := fg[name]
+					if inG != (inA && inB && inC) {
+						fail(a, b, c, fmt.Sprintf("field %s: in versions %v/%v/%v, in the service schema %v", name, inA, inB, inC, inG))
+					}
+				}
+				// renaming the versions (which reorders the fold) must not change which fields survive
+				_, svc2, _, err2 := processSchemaVersions(serviceSchemas{"svc": {"z": schemas[a], "m": schemas[b], "a": schemas[c]}})
+				if (err2 != nil) != (err != nil) {
+					fail(a, b, c, "outcome depends on how the versions are named")
+				} else if err2 == nil {
+					fg2, _ := verifFieldMap(svc2[0])
+					if len(fg2) != len(fg) {
+						fail(a, b, c, "surviving fields depend on how the versions are named")
+					}
+				}
+			}
+		}
+	}
+	if first != "" {
+		fmt.Printf("VERIF-FAIL-INPUT: %s\n", first)
+	}
+	fmt.Printf("VERIF-SAMPLE: versions {f,g} / {g} / {f,g}: only g survives\n")
+	fmt.Printf("VERIF-BOUNDED: evaluations=%d distinct=%d failures=%d\n", evals, distinct, failures)
 }
